@@ -38,7 +38,7 @@ CLAIM = dict(
          'not re-proved here. All theorems are about exact arithmetic. '
          'VALIDATED NUMERICALLY ONLY (every run, on /repo): exact equality of model and implementation at the exact dyadic '
          'instance (unbounded exponents) for core_stab, mul_scalar(use_stab) and norm(use_stab) on rank-1 tensors with totals '
-         'anywhere in 2^+-30000 and beyond (d up to 500 quick / 4000 thorough), 1e-12 agreement for ranks up to 3 and generic '
+         'anywhere in 2^+-30000 and beyond (d up to 500 quick / 4000 thorough), 1e-10 agreement for ranks up to 3 and generic '
          '53-bit mantissas; orthogonalize(use_stab) and the orthogonalisation step of truncate(use_stab) replayed exactly on the '
          'dyadic model with the recorded QR / RQ calls as argument-checking oracles; bit-exact PrimFloat runs of accuracy '
          '(recorded norms of real tensor pairs steered over every branch and both +-500 boundaries, and prescribed norm results '
@@ -57,7 +57,20 @@ CLAIM = dict(
          'regression input in the search); generators keep the other families clear of it. FIXED during this round: 0f9009d '
          '(accuracy(Y, Y) = 1e299 for a tiny last core), found by the C16 search, model and theorems updated, reverting it is '
          'detected. Relative distances below about 1e-8 are not resolved by accuracy (cancellation in <Y1-Y2, Y1-Y2>): the '
-         'search allows the absolute error 1e-12 * (|Y1|^2 + 2|<Y1,Y2>| + |Y2|^2) / |Y2|^2 on the squared result.',
+         'search allows the absolute error 1e-12 * (|Y1|^2 + 2|<Y1,Y2>| + |Y2|^2) / |Y2|^2 on the squared result. '
+         'CROSS-CUTTING FAMILIES (search, and core_stab / norm correspondence): argument forms (F-ordered, non-contiguous, int64 and '
+         'float32 cores, tuple of cores, p0 / thr / k / e / r as Python and NumPy scalars and 0-d arrays, use_stab as True / 1 / '
+         'np.bool_ and False / 0 / np.bool_), call histories (every routine three times on the same argument objects, interleaved; '
+         'results identical to a fresh call, arguments bit-identical afterwards), scales (whole input times 2^+-1000 spread over the '
+         'cores, one core times 2^+-480, d = 1, subnormal maxima and the edges 2^-1022 / 2^-1074 in core_stab, thresholds hit exactly, '
+         'few-bit entries around 2^-531 whose pairwise products are subnormal). KEPT OUT (not covered by the property text, which '
+         'starts at d = 2 and speaks of float tensors): accuracy for d = 1 (act_two.sub of one-core tensors is not a TT-tensor and '
+         'accuracy raises ValueError); int64 cores with entries above 2^5 (numpy integer products wrap around silently beyond 2^31, '
+         'also in the plain mul_scalar). REPORTED TO THE LEAD, generators stay clear of it: cores whose entries are below 2^-511 or '
+         'above 2^+511 (their squares leave the normal double range before any stabilisation happens): generic mantissas around '
+         '1e-160 give norm / mul_scalar(use_stab) with relative error 1e-4, orthogonalize(use_stab) feeds the raw first core to '
+         'LAPACK QR and returns 2^p Z off by 6.6e-5 (entries 2^-531) up to 0.29 (entries 2^-537), entries 2^+600 give NaN and a '
+         'ValueError from core_stab.',
     technique='Coq proof (induction over the chain, ring-generic + Reals) + exact dyadic correspondence + bit-exact PrimFloat '
               'correspondence + Fraction / big-integer reference search')
 TRUSTED = ['Coq 8.16.1 kernel + vm_compute (case evaluation only)',
@@ -311,6 +324,8 @@ def scale_of(rng, mode):
         return rng.randint(170, 200)
     if mode == 'unit':
         return rng.randint(-2, 2)
+    if mode == 'sqsub':
+        return -rng.randint(526, 537)
     return 0
 
 
@@ -328,6 +343,8 @@ def gen_r1_self(rng, d, mode, budget=48, zero_at=None):
     for j in range(d):
         if zero_at == j:
             cs = [0] * rng.randint(1, 3)
+        elif mode == 'sqsub':
+            cs = list(rng.choice(SQ_MENU)[0])       # squared norm a power of two: the mantissa stays 1, products stay exact
         else:
             cs = list(rng.choice(SQ_RICH)) if rng.random() < 0.25 else list(rng.choice(SQ_MENU)[0])
             s = sum(c * c for c in cs)
@@ -603,6 +620,11 @@ def corr_core_stab(R, tn, rng, th):
             A = np.array([rng.uniform(-1, 1) * 2.0 ** rng.randint(900, 1023) for _ in range(r1 * n * r2)])
         else:
             A = np.array([float(rng.randint(-9, 9)) for _ in range(r1 * n * r2)])
+        if t % 15 == 7:
+            # edges of the normal range: largest entry exactly 2^-1022, just below it, the smallest subnormal
+            A = np.array([rng.choice([2.0 ** -1022, math.nextafter(2.0 ** -1022, 0.0), 2.0 ** -1074, 3 * 2.0 ** -1074])] +
+                         [rng.choice([0.0, 2.0 ** -1074, -2.0 ** -1060]) for _ in range(r1 * n * r2 - 1)])
+            dist['subnormal'] += 1
         G = Core(r1, n, r2, arr=A.reshape(r1, n, r2))
         p0 = rng.choice([0, 0, rng.randint(-40000, 40000)])
         if rng.random() < 0.6:
@@ -613,9 +635,28 @@ def corr_core_stab(R, tn, rng, th):
             thr = rng.choice([1e-100, 0.0, vm * 2.0 ** rng.choice([-3, 1, 0]), 1.0])
             args, thr_coq = (thr,), dyl(thr)
             dist['explicit_thr'] += 1
+        # argument forms (same values): memory layout / dtype of the core, scalar types of p0 and thr
+        Ain, p0in, argsin, form = G.arr.copy(), p0, args, 'canonical'
+        if t % 3 == 1:
+            form = rng.choice(['F', 'noncontig', 'int64', 'float32', 'p0_np', 'thr_np'])
+            if form == 'F':
+                Ain = np.asfortranarray(Ain)
+            elif form == 'noncontig':
+                big = np.zeros((r1, 2 * n, r2 + 1))
+                big[:, ::2, :r2] = Ain
+                Ain = big[:, ::2, :r2]
+            elif form in ('int64', 'float32'):
+                cast = Ain.astype(np.int64 if form == 'int64' else np.float32) if np.all(np.abs(Ain) < 2.0 ** 60) else Ain
+                if np.array_equal(cast.astype(float), Ain):     # only where the other dtype carries the same values
+                    Ain = cast
+            elif form == 'p0_np':
+                p0in = rng.choice([np.int64(p0), np.int32(p0), np.array(p0)])
+            elif form == 'thr_np' and args:
+                argsin = (rng.choice([np.float64(thr), np.array(thr)]),)
+            dist['forms'] = dist.get('forms', 0) + 1
         with Rec(tn) as rec:
             try:
-                Q, p = tn.core_stab(G.arr.copy(), p0, *args)
+                Q, p = tn.core_stab(Ain, p0in, *argsin)
                 impl = [(int(p), 0), (Q.shape[0], Q.shape[1]), (Q.shape[2], 0)] + [canon(x) for x in Q.ravel()]
                 if not np.all(np.isfinite(Q)):
                     impl = ['non-finite']
@@ -657,8 +698,13 @@ def corr_mulscal_exact(R, tn, rng, th):
                 plan.append((mode, d))
     plan += [('tiny', d) for d in (2, 3, 4, 4, 8)] + [('big', d) for d in (2, 3, 5)] + [('unit', d) for d in (2, 4, 9, 30)]
     plan += [(rng.choice(['up', 'down', 'mixed']), rng.randint(2, dmax)) for _ in range(40 if th else 6)]
+    plan += [('sqsub', d) for d in (1, 2, 3, 4)]      # entries c * 2^k, k in -537..-526: every product of two cores is subnormal
     for mode, d in plan:
         zero_at = rng.randrange(d) if rng.random() < 0.12 else None
+        if mode == 'sqsub':
+            Y = gen_r1_self(rng, d, mode)
+            cases.append(('norm', mode, Y, Y, None))
+            continue
         # scalar product of two different rank-1 tensors
         Y1, Y2 = gen_r1_pair(rng, d, mode, zero_at=zero_at)
         cases.append(('mul_scalar', mode, Y1, Y2, zero_at))
@@ -809,11 +855,11 @@ def corr_mulscal_tol(R, tn, rng, th):
         else:
             (im, ie), (ip, _) = m['impl']
             dv = rel_diff(im, ie + ip, mm, me + mp)
-            if not (dv <= 1e-12 and abs(ip - mp) <= 1):
+            if not (dv <= 1e-10 and abs(ip - mp) <= 1):
                 why = f'mul_scalar(use_stab) differs from the exact dyadic model (relative {dv:.3g}, exponents {ip} / {mp})'
         if why:
             bad.append(dict(stream='mulscal_tol', why=why, input=m['input'], model=v, impl=m['impl']))
-    _corr_add(R, 'mulscal_tol', len(meta), bad, 'v*2^p relative 1e-12, exponent within 1', dist)
+    _corr_add(R, 'mulscal_tol', len(meta), bad, 'v*2^p relative 1e-10 (mixed signs: sums with cancellation), exponent within 1', dist)
     return bad
 
 
@@ -1725,8 +1771,143 @@ def underflow_family(tn, kind, inp):
         return False
 
 
+def _variants(rng_seed, A):
+    """the same core in other documented forms (values unchanged): F order, non-contiguous view, and - when the values
+    allow it - int64 / float32 dtype"""
+    out = [('F', np.asfortranarray(A))]
+    big = np.zeros((A.shape[0], 2 * A.shape[1], A.shape[2] + 1))
+    big[:, ::2, :A.shape[2]] = A
+    out.append(('noncontig', big[:, ::2, :A.shape[2]]))
+    if np.all(A == np.round(A)) and np.all(np.abs(A) < 2 ** 40):
+        out.append(('int64', A.astype(np.int64)))
+    if np.all(A.astype(np.float32).astype(float) == A):
+        out.append(('float32', A.astype(np.float32)))
+    return out
+
+
+def _same_vp(a, b, tol=0.0):
+    if tol == 0.0:
+        return same_float(a[0], b[0]) and float(a[1]) == float(b[1])
+    x, y = float(a[0]), float(b[0])
+    if x == 0 or y == 0 or not (math.isfinite(x) and math.isfinite(y)):
+        return x == y
+    return (x > 0) == (y > 0) and abs((math.log2(abs(x)) + float(a[1])) - (math.log2(abs(y)) + float(b[1]))) <= tol
+
+
+def chk_forms(tn, inp):
+    """argument forms: every documented form of the arguments gives the answer of the canonical form (float64 C-ordered
+    cores in a list, Python scalars); exact equality wherever the arithmetic is the same, exact distance otherwise"""
+    Y1, Y2 = tts(inp[0]), tts(inp[1])
+    k, e = int(inp[2]), float(inp[3])
+    a, b = tt_np(Y1), tt_np(Y2)
+    d = len(a)
+    ok, ref = call(tn.mul_scalar, a, b, use_stab=True)
+    okn, refn = call(tn.norm, a, use_stab=True)
+    oka, refa = call(tn.accuracy, a, b)
+    okp, refp = call(tn.mul_scalar, a, b)
+    if not (ok and okn and oka and okp):
+        return F('canonical call raised', repr([ref, refn, refa, refp])[:200])
+    fewbit = all(G.cs is not None for G in Y1 + Y2)
+    forms = dict(canonical=a)
+    for name in ('F', 'noncontig', 'int64', 'float32'):
+        vs = [dict(_variants(0, G)).get(name) for G in a]
+        if all(v is not None for v in vs):
+            forms[name] = vs
+    forms['tuple'] = tuple(a)
+    forms['mixed'] = [dict(_variants(0, G)).get('int64', G) if j % 2 else np.asfortranarray(G) for j, G in enumerate(a)]
+    for name, av in forms.items():
+        # few-bit entries: every sum is exact, so another memory layout / dtype gives the identical result; generic 53-bit
+        # entries: np.sum over another layout may round differently (1e-12 in log2); float32 cores are contracted in float32
+        tol = 1e-4 if name == 'float32' else (0.0 if fewbit or name in ('canonical', 'tuple') else 1e-12)
+        for flag in (True, 1, np.bool_(True)):
+            ok1, r = call(tn.mul_scalar, av, b, use_stab=flag)
+            if not ok1 or not _same_vp(r, ref, tol):
+                return F(f'mul_scalar(use_stab={flag!r}) on cores in form {name} differs from the canonical form', repr(r)[:80], repr(ref)[:80])
+            ok1, r = call(tn.norm, av, use_stab=flag)
+            if not ok1 or not _same_vp(r, refn, tol):
+                return F(f'norm(use_stab={flag!r}) on cores in form {name} differs from the canonical form', repr(r)[:80], repr(refn)[:80])
+        for flag in (False, 0, np.bool_(False)):
+            ok1, r = call(tn.mul_scalar, av, b, use_stab=flag)
+            if not ok1 or isinstance(r, tuple):
+                return F(f'mul_scalar(use_stab={flag!r}) does not return the plain scalar', repr(r)[:80])
+            if not math.isfinite(float(refp)):
+                continue        # the plain computation is out of range: nothing to compare
+            if not (same_float(r, refp) if not tol else abs(float(r) - float(refp)) <= max(tol, 1e-9) * abs(float(refp))):
+                return F(f'mul_scalar(use_stab={flag!r}) on cores in form {name} differs from the plain result', repr(r)[:80], repr(refp)[:80])
+        ok1, r = call(tn.accuracy, av, b)
+        if not ok1 or not (same_float(r, refa) if not tol else abs(float(r) - float(refa)) <= (1e-3 if name == 'float32' else 1e-6) * max(abs(float(refa)), 1e-3)):
+            return F(f'accuracy on cores in form {name} differs from the canonical form', repr(r)[:80], refa)
+        # orthogonalize / truncate: the LAPACK calls may round differently for another memory layout: exact distance
+        if d >= 2:
+            I = ints_of(Y1)
+            for kk in (k, np.int64(k), np.int32(k)):
+                ok1, r = call(tn.orthogonalize, av, kk, use_stab=np.bool_(True) if name == 'tuple' else True)
+                if not ok1 or not (isinstance(r, tuple) and isinstance(r[1], (int, np.integer)) and shapes_ok(r[0], Y1) and all_finite(r[0])):
+                    return F(f'orthogonalize(k={kk!r}, use_stab=True) on cores in form {name} fails', repr(r)[:80])
+                rel, _ = exact_rel_dist([np.asarray(G, dtype=float) for G in r[0]], int(r[1]), I)
+                if rel is not None and not rel <= (TOL if name != 'float32' else 1e-5):
+                    return F(f'orthogonalize(k={kk!r}, use_stab=True) on cores in form {name}: 2^p Z differs from Y', rel)
+            for ee, rr in ((e, 1e12), (np.float64(e), np.int64(10 ** 6)), (e, 10 ** 6)):
+                ok1, W = call(tn.truncate, av, ee, rr, use_stab=1 if name == 'tuple' else True)
+                if not ok1 or not (shapes_ok(W, Y1) and all_finite(W)):
+                    return F(f'truncate(e={ee!r}, r={rr!r}, use_stab=True) on cores in form {name} fails', repr(W)[:80])
+                rel, _ = exact_rel_dist([np.asarray(G, dtype=float) for G in W], 0, I)
+                if rel is not None and not rel <= e * (1 + 1e-6) + (2e-7 if name != 'float32' else 1e-5):
+                    return F(f'truncate(use_stab=True) on cores in form {name}: result farther from Y than e', rel, e)
+    # core_stab: scalar types of p0 and thr, explicit default
+    G = a[0]
+    ok0, r0 = call(tn.core_stab, G.copy(), 7)
+    for p0 in (np.int64(7), np.int32(7), np.array(7)):
+        for extra in ((), (0.,), (np.float64(0.),), (np.float32(0.),)):
+            ok1, r = call(tn.core_stab, G.copy(), p0, *extra)
+            if not (ok0 and ok1) or not (np.array_equal(r[0], r0[0]) and int(r[1]) == int(r0[1])):
+                return F(f'core_stab(G, {p0!r}, *{extra!r}) differs from core_stab(G, 7)', repr(r)[:80], repr(r0)[:80])
+    return None
+
+
+def chk_history(tn, inp):
+    """the same argument objects through several calls of every routine, interleaved: every call returns what the first
+    call on a fresh copy returns, and the arguments are bit-identical afterwards"""
+    Y1, Y2 = tts(inp[0]), tts(inp[1])
+    k, e = int(inp[2]), float(inp[3])
+    a, b = tt_np(Y1), tt_np(Y2)
+    saved = [G.tobytes() for G in a] + [G.tobytes() for G in b]
+    fresh = lambda Y: [G.copy() for G in Y]     # noqa
+    calls = [('mul_scalar', lambda x, y: tn.mul_scalar(x, y, use_stab=True)), ('norm', lambda x, y: tn.norm(x, use_stab=True)),
+             ('accuracy', lambda x, y: tn.accuracy(x, y)), ('orthogonalize', lambda x, y: tn.orthogonalize(x, k, use_stab=True)),
+             ('truncate', lambda x, y: tn.truncate(x, e, use_stab=True)), ('core_stab', lambda x, y: tn.core_stab(x[0], 3)),
+             ('norm2', lambda x, y: tn.norm(y, use_stab=True)), ('accuracy_rev', lambda x, y: tn.accuracy(y, x))]
+    if len(a) < 2:
+        calls = [c for c in calls if c[0] not in ('orthogonalize', 'truncate')]
+
+    def flat(r):
+        if isinstance(r, tuple):
+            return [flat(x) for x in r]
+        if isinstance(r, list):
+            return [np.asarray(G).tobytes() for G in r]
+        if isinstance(r, np.ndarray):
+            return r.tobytes()
+        return float(r).hex() if isinstance(r, (float, np.floating)) else r
+    refs = {}
+    for name, f in calls:
+        ok, r = call(f, fresh(a), fresh(b))
+        if not ok:
+            return F(f'{name} raised on a fresh copy', repr(r)[:80])
+        refs[name] = flat(r)
+    for rnd in range(3):
+        order = calls if rnd != 1 else list(reversed(calls))
+        for name, f in order:
+            ok, r = call(f, a, b)
+            if not ok or flat(r) != refs[name]:
+                return F(f'{name}: call number {rnd + 1} on the same argument objects differs from the call on a fresh copy',
+                         repr(r)[:80])
+            if [G.tobytes() for G in a] + [G.tobytes() for G in b] != saved:
+                return F(f'{name} modified its arguments (call number {rnd + 1})')
+    return None
+
+
 CHECKS = dict(core_stab=chk_core_stab, mul_scalar=chk_mul_scalar, norm=chk_norm, accuracy=chk_accuracy, shift=chk_shift,
-              orth=chk_orth, truncate=chk_truncate)
+              orth=chk_orth, truncate=chk_truncate, forms=chk_forms, history=chk_history)
 TENSOR_SLOTS = dict(mul_scalar=[0, 1], norm=[0], accuracy=[0, 1], truncate=[0])
 
 
@@ -1890,6 +2071,48 @@ def search_jobs(rng, th, deep):
             Y1, Y2 = gen_r1_pair(rng, d, rng.choice(['up', 'down', 'mixed']))
             Y2 = tt_desc(Y2)
         J.append(('shift', [tt_desc(Y1), Y2, j, s]))
+    # --- argument forms and call histories (few-bit entries: int64 / float32 cores carry the same values)
+    #     int64 cores: entries below 2^5, so that numpy's integer products cannot wrap around (they do, silently, beyond
+    #     2^31: integer-dtype cores are not a documented form and are only exercised where integer arithmetic is exact)
+    for d, mode in [(2, 'small'), (3, 'small'), (5, 'small'), (4, 'big')] + ([(7, 'small'), (3, 'tiny'), (6, 'mixed')] if deep or th else []):
+        if mode == 'small':
+            Y1 = gen_small(rng, d, 'unit', rmax=2, nmax=2)
+            Y1 = [Core(G.r1, G.n, G.r2, k=abs(G.k), cs=list(G.cs)) for G in Y1]
+            Y2 = same_shape(rng, Y1, mode='unit')
+        else:
+            Y1 = gen_float(rng, d, mode, rmax=2, nmax=2)
+            Y2 = gen_float(rng, d, mode, rmax=2, nmax=2, like=Y1, same_scales=True)
+        J.append(('forms', [tt_desc(Y1), tt_desc(Y2), rng.randrange(d), 0.25]))
+        J.append(('history', [tt_desc(Y1), tt_desc(Y2), rng.randrange(d), 1e-3]))
+    # --- scales: the whole input times 2^+-1000 (spread over the cores), one core times 2^+-480, d = 1, entries around
+    #     2^-531 (every product of two entries is subnormal; few-bit mantissas, so everything stays exact), thresholds
+    for t in (-1000, 1000, -640, 777):
+        d = rng.choice([2, 3, 6, 20])
+        Y1, Y2 = gen_r1_pair(rng, d, 'unit')
+        J.append(('mul_scalar', [tt_desc(spread_shift(Y1, t)), tt_desc(Y2), True]))
+        Y = gen_r1_self(rng, d, 'unit')
+        J.append(('norm', [tt_desc(spread_shift(Y, t // 2)), True]))
+        Yg = gen_float(rng, d, 'unit', rmax=2, nmax=2, lo=0.1)
+        J.append(('norm', [tt_desc(spread_shift(Yg, t // 2)), False]))
+        J.append(('orth', [tt_desc(spread_shift(Yg, t)), rng.randrange(d)]))
+        J.append(('truncate', [tt_desc(spread_shift(Yg, t)), 1e-4, None, True]))
+        J.append(('shift', [tt_desc(Yg), None, rng.randrange(d), rng.choice([-480, 480])]))
+    for d in (1, 2, 3, 4):
+        Y = gen_r1_self(rng, d, 'sqsub')
+        J.append(('norm', [tt_desc(Y), True]))
+        J.append(('mul_scalar', [tt_desc(Y), None, True]))
+    for d in (1, 1, 2):
+        Y = gen_float(rng, d, rng.choice(['up', 'down', 'tiny', 'big']), rmax=1, nmax=3)
+        J.append(('norm', [tt_desc(Y), False]))
+        J.append(('mul_scalar', [tt_desc(Y), tt_desc(gen_float(rng, d, 'unit', rmax=1, like=Y, lo=0.1)), False]))
+        if d >= 2:      # accuracy needs d >= 2 (act_two.sub of one-core tensors is not a TT-tensor; the property starts at d = 2)
+            J.append(('accuracy', [tt_desc(Y), tt_desc(gen_float(rng, d, 'unit', rmax=1, like=Y))]))
+    for A in ([2.0 ** -1022, 0.0], [math.nextafter(2.0 ** -1022, 0.0), -2.0 ** -1074], [2.0 ** -1074, 0.0], [-3 * 2.0 ** -1074, 2.0 ** -1074],
+              [1e-160, -3e-161], [2.0 ** 1023, -2.0 ** 1000]):
+        G = Core(1, 2, 1, arr=np.array(A).reshape(1, 2, 1))
+        J.append(('core_stab', [G.desc(), rng.choice([0, -31000]), []]))
+        J.append(('core_stab', [G.desc(), 0, [float(abs(A[0])).hex()]]))      # threshold hit exactly: unchanged
+        J.append(('core_stab', [G.desc(), 0, [float(math.nextafter(abs(A[0]), 0.0)).hex()]]))   # just below the maximum
     # --- orthogonalize / truncate with use_stab
     for d, mode in [(2, 'up'), (2, 'tiny'), (3, 'down'), (6, 'mixed'), (40, 'up'), (120, 'down'), (dbig, 'mixed')] + \
             [(rng.randint(2, 30), rng.choice(['up', 'down', 'mixed'])) for _ in range(2 * mult)]:
